@@ -154,7 +154,16 @@ _OPFUNC = {"add": ast.Add, "sub": ast.Sub, "mul": ast.Mult,
 
 import itertools as _it
 import operator as _op
-_MATH["itertools.chain"] = lambda *a: list(_it.chain(*a))
+class _Chain:
+    def __call__(self, *a):
+        return list(_it.chain(*a))
+
+    @staticmethod
+    def from_iterable(a):
+        return list(_it.chain.from_iterable(a))
+
+
+_MATH["itertools.chain"] = _Chain()
 _MATH["itertools.chain.from_iterable"] = lambda a: list(
     _it.chain.from_iterable(a))
 _MATH["itertools.accumulate"] = lambda *a, **k: list(_it.accumulate(*a, **k))
@@ -322,6 +331,11 @@ class Evaluator:
         if isinstance(base, tuple) and base[:1] == ("ext",) and \
                 f"{base[1]}.{attr}" in _MATH:
             return ("pyfunc", _MATH[f"{base[1]}.{attr}"])
+        if isinstance(base, tuple) and base[:1] == ("pyfunc",) and \
+                not attr.startswith("_") and callable(
+                    getattr(base[1], attr, None)) and isinstance(
+                        base[1], _Chain):
+            return ("pyfunc", getattr(base[1], attr))
         if isinstance(base, tuple) and base[:1] in (("ext",), ("module",)) \
                 and base[1] == "operator" and attr in _OPFUNC:
             return ("opfunc", _OPFUNC[attr])
@@ -387,6 +401,11 @@ class Evaluator:
         if isinstance(base, tuple) and base and base[0] == "ext":
             if base[1] == "struct" and attr == "calcsize":
                 return ("pyfunc", struct.calcsize)
+            if base[1] == "operator" and attr == "index":
+                return ("pyfunc", operator.index)
+            if base[1] == "struct" and attr in ("pack", "unpack",
+                                                "unpack_from", "pack_into"):
+                return ("pyfunc", getattr(struct, attr))
             return ("ext", base[1] + "." + attr)
         for t, names in _PURE_METHODS.items():
             if type(base) is t and attr in names:
@@ -665,6 +684,13 @@ class Evaluator:
                 out.append(format(val, spec))
         return "".join(out)
 
+    def _e_NamedExpr(self, node, env):
+        v = self.eval(node.value, env)
+        if isinstance(node.target, ast.Name) and isinstance(env, dict):
+            env[node.target.id] = v
+            return v
+        raise Unknown("walrus target")
+
     def _e_Lambda(self, node, env):
         return ("function", self.cls, node, dict(env) if isinstance(env, dict)
                 else env)
@@ -680,6 +706,11 @@ class Evaluator:
 
     def _e_SetComp(self, node, env):
         return set(self._comp(node, env))
+
+    def _e_DictComp(self, node, env):
+        pair = ast.Tuple(elts=[node.key, node.value], ctx=ast.Load())
+        fake = ast.ListComp(elt=pair, generators=node.generators)
+        return dict(self._comp(fake, env))
 
     def _comp(self, node, env, i=0, elt=None):
         gens = node.generators
